@@ -99,6 +99,7 @@ TraceNext ==
              \* ---- properties on the real state / transition
              /\ Chk(C02_CommittedSurvives', "P", e, "C02_CommittedSurvives")
              /\ Chk(C02_NoDivergence', "P", e, "C02_NoDivergence")
+             /\ Chk(C02_HWBacked', "P", e, "C02_HWBacked")
              /\ Chk(C04_AcksOK, "P", e, "C04_AcksOK")
              /\ Chk(C04_NackedNeverStored', "P", e, "C04_NackedNeverStored")
              /\ Chk(HWMonotoneWhileUp, "P", e, "HWMonotoneWhileUp")
